@@ -23,9 +23,12 @@ Ltac necode := unfold EOutOfFuel, ETrunc, EHead, ELen, ETag, ELink, EKey, EDupKe
 
 Lemma good_bind {A B} lb st (e : res (A * bytes)) (k : A * bytes -> res (B * bytes)) lb' st' :
   good lb st e ->
-  (forall a r', (if st then (length r' < lb)%nat else (length r' <= lb)%nat) -> good lb' st' (k (a, r'))) ->
+  (forall a r', (length r' <= lb)%nat -> (st = true -> length r' < lb)%nat -> good lb' st' (k (a, r'))) ->
   good lb' st' (bind e k).
-Proof. destruct e as [[a r']|c|c]; cbn [bind good]; auto. intros []. Qed.
+Proof.
+  destruct e as [[a r']|c|c]; cbn [bind good]; auto; try tauto.
+  intros H K. apply K; destruct st; try lia; discriminate.
+Qed.
 
 Lemma good_weaken {A} lb lb' st (r : res (A * bytes)) :
   good lb st r -> (lb <= lb')%nat -> good lb' false r.
@@ -34,24 +37,28 @@ Proof. destruct r as [[a r']|c|c]; cbn [good]; auto. destruct st; lia. Qed.
 Lemma take_len n r x r' : take n r = Some (x, r') -> (length r' <= length r)%nat.
 Proof. intro H. apply take_some in H as [-> _]. rewrite app_length. lia. Qed.
 
+Lemma take_good {A} n r (f : bytes -> A) :
+  good (length r) false (match take n r with None => Err ETrunc | Some (x, r') => Ok (f x, r') end).
+Proof. destruct (take n r) as [[x r']|] eqn:E; [apply take_len in E; cbn [good]; lia|cbn [good]; necode]. Qed.
+
 Lemma rd_uint_good hb r : good (length r) false (rd_uint hb r).
 Proof.
-  unfold rd_uint. destruct (hb mod 32 <? 24); [cbn; lia|].
-  destruct (hb mod 32 =? 24); [|destruct (hb mod 32 =? 25); [|destruct (hb mod 32 =? 26); [|destruct (hb mod 32 =? 27)]]];
-    try (cbn; necode);
-    match goal with |- context [take ?n r] => destruct (take n r) as [[x r']|] eqn:E end;
-    try (cbn; necode); apply take_len in E; cbn; lia.
+  unfold rd_uint. destruct (hb mod 32 <? 24); [cbn [good]; lia|].
+  destruct (hb mod 32 =? 24); [apply take_good|].
+  destruct (hb mod 32 =? 25); [apply take_good|].
+  destruct (hb mod 32 =? 26); [apply take_good|].
+  destruct (hb mod 32 =? 27); [apply take_good|]. cbn [good]. necode.
 Qed.
 
 Lemma rd_len_good hb r : good (length r) false (rd_len hb r).
 Proof.
-  unfold rd_len. eapply good_bind; [apply rd_uint_good|]. intros v r' H. cbn beta iota.
+  unfold rd_len. eapply good_bind; [apply rd_uint_good|]. intros v r' H H'. cbn beta iota.
   destruct (MaxInt <? v); cbn; [necode|exact H].
 Qed.
 
 Lemma rd_str_good hb r : good (length r) false (rd_str hb r).
 Proof.
-  unfold rd_str. eapply good_bind; [apply rd_len_good|]. intros n r1 H. cbn beta iota.
+  unfold rd_str. eapply good_bind; [apply rd_len_good|]. intros n r1 H H'. cbn beta iota.
   destruct (MaxStr <? n); [cbn; necode|].
   destruct (take n r1) as [[x r2]|] eqn:E; [|cbn; necode]. apply take_len in E. cbn. lia.
 Qed.
@@ -61,8 +68,8 @@ Proof.
   induction f as [|f IH]; intros maj b Hf; [lia|].
   destruct b as [|hb r]; cbn [rd_chunks]; [cbn; necode|].
   destruct (hb =? 255); [cbn; lia|]. destruct (negb (hb / 32 =? maj)); [cbn; necode|].
-  cbn [length] in *. eapply good_bind; [apply rd_str_good|]. intros x r1 H1. cbn beta iota.
-  eapply good_bind; [apply (IH maj r1); lia|]. intros rest r2 H2. cbn beta iota. cbn. lia.
+  cbn [length] in *. eapply good_bind; [apply rd_str_good|]. intros x r1 H1 H1'. cbn beta iota.
+  eapply good_bind; [apply (IH maj r1); lia|]. intros rest r2 H2 H2'. cbn beta iota. cbn. lia.
 Qed.
 
 Lemma bytes_item_good tag x r lb :
@@ -70,7 +77,7 @@ Lemma bytes_item_good tag x r lb :
 Proof.
   intro H. unfold bytes_item. destruct tag as [t|]; [|cbn; exact H].
   destruct (t =? 42); [|cbn; necode]. destruct x as [|x0 x]; [cbn; necode|].
-  destruct x0; [|cbn; necode]. destruct (cast x); cbn; try necode. exact H.
+  destruct x0; [|cbn; necode]. destruct (cast x); cbn; necode.
 Qed.
 
 Lemma item_seq_good f :
@@ -87,21 +94,21 @@ Proof.
     + destruct (take 2 r) as [[x r']|] eqn:E; [apply take_len in E; cbn; lia|cbn; necode].
     + destruct (take 4 r) as [[x r']|] eqn:E; [apply take_len in E; cbn; lia|cbn; necode].
     + destruct (take 8 r) as [[x r']|] eqn:E; [apply take_len in E; cbn; lia|cbn; necode].
-    + eapply good_bind; [apply (chunks_good f MajByteString r); lia|]. intros x r1 H1. cbn beta iota.
+    + eapply good_bind; [apply (chunks_good f MajByteString r); lia|]. intros x r1 H1 H1'. cbn beta iota.
       apply bytes_item_good. lia.
-    + eapply good_bind; [apply (chunks_good f MajTextString r); lia|]. intros x r1 H1. cbn. lia.
-    + eapply good_bind; [apply (IHs None false r); lia|]. intros es r1 H1. cbn. lia.
-    + eapply good_bind; [apply (IHs None true r); lia|]. intros es r1 H1. cbn. lia.
-    + eapply good_bind; [apply rd_uint_good|]. intros v r1 H1. cbn. lia.
-    + eapply good_bind; [apply rd_uint_good|]. intros v r1 H1. cbn beta iota zeta.
+    + eapply good_bind; [apply (chunks_good f MajTextString r); lia|]. intros x r1 H1 H1'. cbn. lia.
+    + eapply good_bind; [apply (IHs None false r); lia|]. intros es r1 H1 H1'. cbn. lia.
+    + eapply good_bind; [apply (IHs None true r); lia|]. intros es r1 H1 H1'. cbn. lia.
+    + eapply good_bind; [apply rd_uint_good|]. intros v r1 H1 H1'. cbn. lia.
+    + eapply good_bind; [apply rd_uint_good|]. intros v r1 H1 H1'. cbn beta iota zeta.
       destruct (9223372036854775808 <? (v + 1) mod Pow64); cbn; [necode|lia].
-    + eapply good_bind; [apply rd_str_good|]. intros x r1 H1. cbn beta iota. apply bytes_item_good. lia.
-    + eapply good_bind; [apply rd_str_good|]. intros x r1 H1. cbn. lia.
-    + eapply good_bind; [apply rd_len_good|]. intros n r1 H1. cbn beta iota.
-      eapply good_bind; [apply (IHs (Some n) false r1); lia|]. intros es r2 H2. cbn. lia.
-    + eapply good_bind; [apply rd_len_good|]. intros n r1 H1. cbn beta iota.
-      eapply good_bind; [apply (IHs (Some n) true r1); lia|]. intros es r2 H2. cbn. lia.
-    + destruct tag; [cbn; necode|]. eapply good_bind; [apply rd_len_good|]. intros t r1 H1. cbn beta iota.
+    + eapply good_bind; [apply rd_str_good|]. intros x r1 H1 H1'. cbn beta iota. apply bytes_item_good. lia.
+    + eapply good_bind; [apply rd_str_good|]. intros x r1 H1 H1'. cbn. lia.
+    + eapply good_bind; [apply rd_len_good|]. intros n r1 H1 H1'. cbn beta iota.
+      eapply good_bind; [apply (IHs (Some n) false r1); lia|]. intros es r2 H2 H2'. cbn. lia.
+    + eapply good_bind; [apply rd_len_good|]. intros n r1 H1 H1'. cbn beta iota.
+      eapply good_bind; [apply (IHs (Some n) true r1); lia|]. intros es r2 H2 H2'. cbn. lia.
+    + eapply good_bind; [apply rd_len_good|]. intros t r1 H1 H1'. cbn beta iota.
       pose proof (IHi (Some t) r1) as G. assert (2 * length r1 + 2 <= f)%nat as Hf1 by lia. specialize (G Hf1).
       destruct (item f (Some t) r1) as [[n r2]|c|c]; cbn in *; auto. lia.
   - intros lim ismap b Hf. rewrite seq_eq.
@@ -110,12 +117,12 @@ Proof.
       * destruct (n =? 0); inversion Es; subst. lia.
       * destruct b as [|hb r0]; [discriminate|]. destruct (hb =? 255); inversion Es; subst. cbn [length]. lia.
     + destruct ismap.
-      * eapply good_bind; [apply (IHi None b); lia|]. intros k r1 H1. cbn beta iota.
+      * eapply good_bind; [apply (IHi None b); lia|]. intros k r1 H1 H1'. cbn beta iota.
         destruct k; try (cbn; necode).
-        eapply good_bind; [apply (IHi None r1); lia|]. intros v r2 H2. cbn beta iota.
-        eapply good_bind; [apply (IHs (lim_pred lim) true r2); lia|]. intros rest r3 H3. cbn. lia.
-      * eapply good_bind; [apply (IHi None b); lia|]. intros v r1 H1. cbn beta iota.
-        eapply good_bind; [apply (IHs (lim_pred lim) false r1); lia|]. intros rest r2 H2. cbn. lia.
+        eapply good_bind; [apply (IHi None r1); lia|]. intros v r2 H2 H2'. cbn beta iota.
+        eapply good_bind; [apply (IHs (lim_pred lim) true r2); lia|]. intros rest r3 H3 H3'. cbn. lia.
+      * eapply good_bind; [apply (IHi None b); lia|]. intros v r1 H1 H1'. cbn beta iota.
+        eapply good_bind; [apply (IHs (lim_pred lim) false r1); lia|]. intros rest r2 H2 H2'. cbn. lia.
 Qed.
 
 Theorem decode_lax_total b :
@@ -127,6 +134,58 @@ Proof.
   destruct r; [exact I|necode].
 Qed.
 
+(* the typed builders only add their own three error classes *)
+Definition sch {A} (r : res A) : Prop :=
+  match r with
+  | Ok _ => True
+  | Err c => c = ESchemaKind \/ c = ESchemaMissing \/ c = ESchemaUnknown
+  | Panic _ => False
+  end.
+Lemma sch_bind {A B} (e : res A) (k : A -> res B) : sch e -> (forall a, sch (k a)) -> sch (bind e k).
+Proof. destruct e; cbn [bind sch]; auto. Qed.
+Lemma sch_map_res {A} (conv : node -> res A) l : (forall x, sch (conv x)) -> sch (map_res conv l).
+Proof.
+  intro H. induction l as [|x l IH]; [exact I|]. cbn [map_res].
+  apply sch_bind; [apply H|]. intro y. apply sch_bind; [exact IH|]. intro t. exact I.
+Qed.
+Lemma sch_as_list {A} (conv : node -> res A) n : (forall x, sch (conv x)) -> sch (as_list conv n).
+Proof. intro H. destruct n; cbn; auto. apply sch_map_res, H. Qed.
+Lemma sch_opt {A} (conv : node -> res A) k m : (forall x, sch (conv x)) -> sch (opt conv k m).
+Proof. intro H. unfold opt. apply sch_bind; [apply sch_map_res, H|]. intro vs. exact I. Qed.
+Lemma sch_req {A} (conv : node -> res A) k m : (forall x, sch (conv x)) -> sch (req conv k m).
+Proof. intro H. unfold req. apply sch_bind; [apply sch_opt, H|]. intros [x|]; cbn; auto. Qed.
+Lemma sch_req_list {A} (conv : node -> res A) k m : (forall x, sch (conv x)) -> sch (req_list conv k m).
+Proof.
+  intro H. unfold req_list. apply sch_bind; [apply sch_map_res; intro x; apply sch_as_list, H|]. intros [|v vs]; cbn; auto.
+Qed.
+Lemma sch_check f m : sch (struct_check f m).
+Proof. unfold struct_check. destruct (forallb _ m); cbn; auto. Qed.
+Lemma sch_string n : sch (as_string n). Proof. destruct n; cbn; auto. Qed.
+Lemma sch_bytes n : sch (as_bytes n). Proof. destruct n; cbn; auto. Qed.
+Lemma sch_link n : sch (as_link n). Proof. destruct n; cbn; auto. Qed.
+Lemma sch_bool n : sch (as_bool n). Proof. destruct n; cbn; auto. Qed.
+
+Ltac sch_tac :=
+  repeat first [ exact I
+               | apply sch_check | apply sch_req | apply sch_opt | apply sch_req_list
+               | apply sch_bind; [|intro]
+               | apply sch_string | apply sch_bytes | apply sch_link | apply sch_bool
+               | progress intros ].
+
+Lemma sch_prov n : sch (node_to_prov n).
+Proof. destruct n; cbn [node_to_prov]; try (cbn; auto; fail). sch_tac. Qed.
+Lemma sch_ext n : sch (node_to_ext n).
+Proof. destruct n; cbn [node_to_ext]; try (cbn; auto; fail). sch_tac. apply sch_prov. Qed.
+Lemma sch_ad n : sch (node_to_ad n).
+Proof. destruct n; cbn [node_to_ad]; try (cbn; auto; fail). sch_tac. apply sch_ext. Qed.
+Lemma sch_chunk n : sch (node_to_chunk n).
+Proof. destruct n; cbn [node_to_chunk]; try (cbn; auto; fail). sch_tac. Qed.
+
+Lemma sch_total {A} (r : res A) : sch r -> match r with Ok _ => True | Err c => c <> EOutOfFuel | Panic _ => False end.
+Proof.
+  destruct r; cbn; auto. intros [-> | [-> | ->]]; unfold ESchemaKind, ESchemaMissing, ESchemaUnknown, EOutOfFuel; lia.
+Qed.
+
 Theorem decode_total_proved b :
   match decode b with Ok _ => True | Err c => c <> EOutOfFuel | Panic _ => False end /\
   match typed_load_ad b with Ok _ => True | Err c => c <> EOutOfFuel | Panic _ => False end /\
@@ -135,10 +194,5 @@ Proof.
   pose proof (decode_lax_total b) as H. unfold decode, typed_load_ad, typed_load_chunk.
   destruct (decode_lax b) as [n|c|c]; cbn [bind]; try tauto.
   split; [destruct (has_dup_deep n); [necode|exact I]|].
-  assert (forall {A} (conv : node -> res A) (l : list node),
-            (forall x, match conv x with Ok _ => True | Err c => (c = ESchemaKind \/ c = ESchemaMissing \/ c = ESchemaUnknown) | Panic _ => False end) ->
-            match map_res conv l with Ok _ => True | Err c => (c = ESchemaKind \/ c = ESchemaMissing \/ c = ESchemaUnknown) | Panic _ => False end) as Hmr.
-  { intros A conv l Hc. induction l as [|x l IH]; [exact I|]. cbn [map_res]. specialize (Hc x).
-    destruct (conv x); cbn [bind]; auto. destruct (map_res conv l); cbn [bind]; auto. }
-  admit.
-Admitted.
+  split; apply sch_total; [apply sch_ad|apply sch_chunk].
+Qed.
